@@ -43,7 +43,7 @@ func NewDG16(data []byte) (*DG16, error) {
 		return nil, fmt.Errorf("[NewDG16] error: %w", err)
 	}
 
-	rootNode := nodes.NodeByTag(DG16Tag)
+	rootNode := lookupRootNode(nodes, DG16Tag)
 
 	if !rootNode.IsValidNode() {
 		return nil, fmt.Errorf("root node (%x) missing", DG16Tag)
